@@ -266,6 +266,14 @@ func c19Mux(rules []c19Rule, methods []string, own bool) string {
 	for i, r := range rules {
 		sc.Http.Rules = append(sc.Http.Rules, c19DynRule(i, r.Shape, r.Sel).toProto())
 	}
+	// another mux is built from this configuration and a second one: the configuration handed over stays the caller's
+	// (a mux binds the rules of its own configuration, and building one does not edit what it was given)
+	if _, err := larking.NewMux(larking.ServiceConfigOption(sc), larking.ServiceConfigOption(c19Decoy)); err != nil {
+		panic(err)
+	}
+	if len(sc.Http.Rules) != len(rules) || len(c19Decoy.Http.Rules) != 1 {
+		return "config-modified"
+	}
 	for _, meth := range methods {
 		// configuration side
 		var ownRule *dynRule
